@@ -25,19 +25,22 @@ META = dict(
                "established by trace acceptance (sampled), the per-message pipeline itself is Pipeline.v (C02/C07/C10). Trusted: "
                "Coq kernel + vm_compute, shims and raw-log grouping (harness/shims.py), virtual-time loop.",
     rule="case = receiver scenario with a fault history (raise / BaseException / timeout label with instant or slow cancellation clean-up / no-result / malformed / unknown / "
-         "failing backend / raising pre- or post-hook) followed by A+1 long probe tasks; non-trivial iff finite A, >= A messages "
+         "failing backend / raising pre- or post-hook / pre-, post-, post_save-, on_error-hook or set_result ending with asyncio.CancelledError "
+         "(raised, or a cancelled future awaited: the callback task ends CANCELLED) or another BaseException) followed by A+1 long probe tasks; non-trivial iff finite A, >= A messages "
          "ending abnormally and a probe present; distinct by canonical scenario",
     trusted_base=["model: coq/theories/RecvLTS.v", "logging shims + raw log -> LTS event grouping: harness/shims.py; harness/vloop.py",
                   "asyncio semantics assumed by the model: a task step is atomic; Semaphore / Queue / wait / done-callbacks as documented"],
     assumptions=["fairness of the asyncio event loop (an enabled task step is eventually run)",
                  "the broker's listen() generator takes a message only at its yield and raises nothing but StopAsyncIteration"],
 )
-PROF = dict(probe=True, stop_p=.12, n_p=.1, ends_p=.08, wtt_p=.2, slowcancel=.2)
+PROF = dict(probe=True, stop_p=.12, n_p=.1, ends_p=.08, wtt_p=.2, slowcancel=.2, abort_p=.07)
+FAIL_POINTS = ("pre_fail", "post_fail", "save_fail", "psave_fail", "onerr_fail")
 DELTA = R.US            # a ready message must start within 1 s (virtual) of a slot being free
 
 
 def abnormal(m):
     return (m["kind"] != "ok" or m["out"] != "ret" or m.get("pre_fail") or m.get("post_fail") or m.get("save_fail")
+            or m.get("psave_fail") or m.get("onerr_fail")
             or (m.get("tlabel_us") is not None and 0 <= m["tlabel_us"] < m["dur"]))
 
 
@@ -66,7 +69,7 @@ def oracle(sc, obs):
             body.add(a)
         elif tag == "body.out":
             body.discard(a)              # logged in the outermost finally of the task function: the body REALLY ended
-        if tag in ("hook.pre", "hook.post", "save", "ack", "body.in", "body.cleanup", "body.out"):
+        if tag in ("hook.pre", "hook.post", "hook.post_save", "hook.on_error", "save", "ack", "body.in", "body.cleanup", "body.out"):
             if a not in proc and not any(o["sig"].get("kind") == "bracket" for o in out):
                 out.append(dict(what="observable processing event outside the message's callback bracket",
                                 observed=[t, tag, a], expected="between cb.start and cb.end", sig=dict(kind="bracket")))
@@ -93,7 +96,10 @@ def oracle(sc, obs):
                             observed=dict(running=len(running), at_us=at), expected=want, sig=dict(kind="saturation")))
     # (4) progress: a message that is ready (arrived, predecessor handed over) starts within DELTA of a free slot,
     #     as long as no shutdown has been triggered
-    limit_t = f.t0 if f.t0 is not None else f.end_t
+    #     (observed until the harness' cut mark when listen() was still running then - a worker that has stopped dead logs
+    #     nothing any more, so the instant of its last event is not the end of the observation)
+    cut_t = next((e[0] for e in obs["raw"] if e[1] == "CUTMARK"), None)
+    limit_t = f.t0 if f.t0 is not None else cut_t if (cut_t is not None and not f.returned) else f.end_t
     spans = [(f.cbstart[i][0], (f.cbdone.get(i) or [None])[0]) for i in f.cbstart]
     prev_start = 0
     for i, m in enumerate(msgs):
@@ -137,9 +143,23 @@ def explore(ctx, rep, scs, label):
             rep.fail(f["what"], sc, observed=f["observed"], expected=f["expected"], sig=f["sig"])
         rep.count("A=%s" % sc["A"])
         rep.count("probe" if "probe_at" in sc else "no-probe")
+        # how callback tasks really ended (from the done-callback of the real task object)
+        canc = sum(1 for e in o["raw"] if e[1] == "cb.done" and e[3] == "cancelled")
+        if canc:
+            rep.count("scenario:with-callback-task-ended-cancelled")
+            if R.limited(sc) and canc >= sc["A"]:
+                rep.count("scenario:with->=A-callback-tasks-ended-cancelled")
+        for e in o["raw"]:
+            if e[1] == "cb.done":
+                rep.count("callback-task-ended:" + ("cancelled" if e[3] == "cancelled" else "result-or-exception"))
         for m in sc["msgs"]:
             if m["kind"] != "ok":
                 rep.count("outcome:" + m["kind"])
+            elif m.get("fail_exc"):
+                # hook / backend failing with CancelledError (raised, or a cancelled future awaited), another BaseException,
+                # or post_save / on_error failing at all
+                rep.count("outcome:%s/%s%s" % (next(k for k in FAIL_POINTS if m.get(k)), m["fail_exc"],
+                                               "/after-await" if m.get("fail_after_us") else ""))
             elif m.get("pre_fail") or m.get("post_fail") or m.get("save_fail"):
                 rep.count("outcome:" + ("pre_fail" if m.get("pre_fail") else "post_fail" if m.get("post_fail") else "save_fail"))
             elif m.get("tlabel_us") is not None and m["tlabel_us"] < m["dur"]:
